@@ -3,7 +3,8 @@
     patterns, instantiations, hosts and extension histories; that an occurrence
     is *reported* is C02 (completeness) / C05, see those files.  The port-graph
     part of the property is decided by exploration only (DESIGN.md §6 C11). *)
-From PM Require Import Model.Prelude Model.DomString Model.DomMatrix Spec.Occ Proofs.OccMono.
+From PM Require Import Model.Prelude Model.Domain Model.Matchers Model.DomString Model.DomMatrix Spec.Occ Proofs.OccMono
+  Model.DomPGKeys Model.DomPG Model.DomPGPattern Properties.C05.
 
 Theorem c11_string_self :
   forall (sigma : N -> N) (p : spattern), occ_string p (s_inst sigma p) 0.
@@ -40,6 +41,35 @@ Theorem c11_matrix_columns_prepended :
     occ_matrix p h a -> occ_matrix p (shift_right pre h) (fst a, (snd a + N.of_nat n)%N).
 Proof. exact occ_matrix_shift_right. Qed.
 
+(** Port graphs.  At the level of the specification (an embedding: an injective
+    map of the pattern nodes that sends links to links) both clauses are
+    immediate; at the level of the matchers the extension clause is refuted on
+    the faithful model (known finding D6): the pattern is found in itself and is
+    no longer found after one unlinked port is added to a host node. *)
+Definition pg_embeds (P H : pghost) (f : N -> N) : Prop :=
+  (forall u v, In u (live_nodes P) -> In v (live_nodes P) -> f u = f v -> u = v)
+  /\ (forall a oa b ib, In (a, oa, b, ib) (pg_links P) -> In (f a, oa, f b, ib) (pg_links H)).
+
+Theorem c11_portgraph_self_spec : forall P, pg_embeds P P (fun u => u).
+Proof. intros P. split; auto. Qed.
+
+Theorem c11_portgraph_extension_spec :
+  forall P H H' f, pg_embeds P H f -> incl (pg_links H) (pg_links H') -> pg_embeds P H' f.
+Proof. intros P H H' f [Hi Hl] Hinc. split; auto. Qed.
+
+Theorem c11_portgraph_matcher_extension_refuted :
+  exists cs nk, pg_cvec_full d6_pattern 0 = Ok (cs, nk)
+    /\ pg_embeds d6_pattern d6_pattern (fun u => u) /\ pg_embeds d6_pattern d6_host (fun u => u)
+    /\ incl (pg_links d6_pattern) (pg_links d6_host)
+    /\ (exists m, single pg_dom 1000 cs d6_pattern = Ok [m])
+    /\ single pg_dom 1000 cs d6_host = Ok [].
+Proof.
+  destruct c05_portgraph_complete_refuted_root_hidden as [cs [nk [CV [_ [_ [_ [El [Hs Hn]]]]]]]].
+  exists cs, nk. split; [exact CV|]. split; [apply c11_portgraph_self_spec|].
+  split; [split; [auto|intros a oa b ib Hin; rewrite El; exact Hin]|].
+  split; [rewrite El; apply incl_refl|]. split; assumption.
+Qed.
+
 Example c11_example :
   occ_stringb [Lit 97; Var 1; Var 1]%N (s_inst (fun _ => 98%N) [Lit 97; Var 1; Var 1]%N) 0 = true
   /\ s_ext [97; 98; 98]%N 0 ([99] ++ ([97; 98; 98] ++ [97]))%N 1.
@@ -55,3 +85,6 @@ Print Assumptions c11_matrix_rows_appended.
 Print Assumptions c11_matrix_rows_prepended.
 Print Assumptions c11_matrix_rows_widened.
 Print Assumptions c11_matrix_columns_prepended.
+Print Assumptions c11_portgraph_self_spec.
+Print Assumptions c11_portgraph_extension_spec.
+Print Assumptions c11_portgraph_matcher_extension_refuted.
